@@ -61,6 +61,10 @@ void family( std::string const& tname, std::vector<int> k, int step, int bq, int
     P( "resize-vs-ins", { { { INS, a, 0 } }, { { INS, b, 0 }, { HAS, a, 0 } } }, bq, bt );
     P( "resize-vs-resize", { { { INS, a, 0 }, { DEL, k[0], 0 } }, { { INS, b, 0 }, { DEL, k[1], 0 } } }, bq, bt );
     P( "3t-resize", { { { INS, a, 0 } }, { { INS, b, 0 } }, { { DEL, k[0], 0 }, { HAS, k[1], 0 } } }, 1, 2 );
+    // a thread that picked its lock before a complete resize must not work on the bucket under the retired lock
+    P( "resize-vs-ins-same", { { { INS, a, 0 }, { HAS, a, 0 } }, { { INS, b, 0 }, { INS, a, 0 } } }, bq, bt );
+    P( "resize-vs-del-same", { { { DEL, k[0], 0 }, { HAS, k[0], 0 } }, { { INS, a, 0 }, { DEL, k[0], 0 } } }, bq, bt );
+    P( "3t-resize-ins-ins-same", { { { INS, a, 0 } }, { { INS, b, 0 } }, { { INS, a, 0 } } }, 2, 2 );
     P( "resize-vs-upsert", { { { INS, a, 0 } }, { { UPD_INS, k[0], 77 }, { FIND_F, k[0], 0 } } }, bq, bt );
 }
 
